@@ -596,6 +596,7 @@ fn vm_place(path: &str) -> Option<(&'static str, LT)> {
         "self.fiber" => Some(("vm_.curId", LT::Opt(Box::new(LT::FiberId)))),
         "self.unsafe_fiber" => Some(("vm_.unsafeId", LT::Opt(Box::new(LT::FiberId)))),
         "self.active_fiber().caller" => Some(("vm_.caller", LT::Opt(Box::new(LT::FiberId)))),
+        "self.active_fiber().handling_exception" => Some(("vm_.fiberHandling", LT::Bool)),
         "self.active_fiber().frames[0].closure" => Some(("vm_.closure0", LT::Value)),
         _ => None,
     }
